@@ -135,13 +135,14 @@ def waitingOf (s : Sys) (n : Nat) : List Nat :=
   | some nd => nd.waitingMe
   | none => []
 
+/-- the choices tried in a state (the iteration order of `waiting_me` is handled lazily, see `dfs`) -/
 def moves (ctx : Ctx) (s : Sys) : List Choice :=
   match s.susp with
   | .running => [.tick []]
-  | .yielded n => (perms (waitingOf s n)).map Choice.tick
+  | .yielded n => [.tick (waitingOf s n)]
   | .err _ => []
   | _ =>
-    (s.running.flatMap fun m => (perms (waitingOf s m)).map (Choice.finish m)) ++
+    (s.running.map fun m => Choice.finish m (waitingOf s m)) ++
       (if ctx.par && s.susp == .idle && !s.stop then [.resume] else [])
 
 /-- the run is over: nothing in flight and the main thread has nothing left to do -/
@@ -164,7 +165,13 @@ def acceptEnd (ctx : Ctx) (s : Sys) (v : List Ev) : Bool :=
      | .err _ => (ctx.obs.drop v.length).all fun e => s.running.any fun m => e.reports m
      | _ => v.length == ctx.obs.length)
 
-partial def dfs (ctx : Ctx) (s : Sys) : StateM (Nat × Nat × String) (Option Sys) := do
+/-- Depth-first search for a schedule of the model that produces the observed trace.
+    The iteration order of `waiting_me` (the `perm` of a feeding step) only decides in which order the woken nodes are
+    appended to `ready`; they are appended contiguously.  Instead of enumerating permutations up front the search
+    feeds in the stored order, remembers the woken nodes as a *group*, and when the dispatcher is about to pop a member
+    of a group from `ready` it may pop any remaining member of that group instead — which is the state some other
+    permutation would have produced. -/
+partial def dfs (ctx : Ctx) (s : Sys) (groups : List (List Nat)) : StateM (Nat × Nat × String) (Option Sys) := do
   let (n, best, bs) ← get
   if n = 0 then return none
   let v := visOf ctx s
@@ -175,14 +182,29 @@ partial def dfs (ctx : Ctx) (s : Sys) : StateM (Nat × Nat × String) (Option Sy
   if v.length ≥ best then set (n - 1, v.length, reprStr s.susp ++ " running=" ++ toString s.running ++ " stop=" ++ toString s.stop)
   else set (n - 1, best, bs)
   if acceptEnd ctx s v then return some s
-  for c in moves ctx s do
-    match step ctx.inp s c with
-    | some s' =>
-      match (← dfs ctx s') with
-      | some r => return some r
+  match s.susp, s.cur, s.ready with
+  | .running, none, r :: _ =>
+    let g := (groups.find? (·.contains r)).getD [r]
+    let alts := r :: (g.filter fun x => x != r && s.ready.contains x)
+    for x in alts do
+      match step ctx.inp { s with ready := x :: s.ready.erase x } (.tick []) with
+      | some s' =>
+        match (← dfs ctx s' (groups.map (·.erase x))) with
+        | some r => return some r
+        | none => pure ()
       | none => pure ()
-    | none => pure ()
-  return none
+    return none
+  | _, _, _ =>
+    for c in moves ctx s do
+      match step ctx.inp s c with
+      | some s' =>
+        let fresh := s'.ready.filter fun x => !s.ready.contains x
+        let groups' := if fresh.length > 1 then groups ++ [fresh] else groups
+        match (← dfs ctx s' groups') with
+        | some r => return some r
+        | none => pure ()
+      | none => pure ()
+    return none
 
 /-- the eager serial-like schedule (used by `simulate` and for diagnostics) -/
 partial def simulate (ctx : Ctx) (s : Sys) (fuel : Nat) : Sys :=
@@ -270,7 +292,7 @@ def targetOK (c : Case) (st? : Option FState) (obs : List Ev) (err : String) (ex
   let failed := obs.any fun e => match e with | .failure _ => true | .unmet _ => true | _ => false
   let good (n : Nat) : Bool := obs.any fun e => e == .success n || e == .skipUtd n
   if !outside.isEmpty then (false, s!"executed outside the closure of the selection: {outside}")
-  else if !orphan.isEmpty && !failed && err != "notfound" && err != "exit3" then
+  else if !orphan.isEmpty && !failed && err == "none" then
     (false, s!"a target nobody produces was not reported as an error: {orphan.map (·.w)}")
   else if orphanM.isEmpty && err == "notfound" then (false, "not-found error although every target has a producer")
   else if exit == 0 && err == "none" &&
@@ -315,7 +337,7 @@ def handle (j : Json) : Json :=
                             ("err", Json.str (errStr sim.susp)), ("exit", toJson (exitCode sim)),
                             ("susp", Json.str (reprStr sim.susp))]
     if op == "simulate" then Json.mkObj [("model", simJ), ("selected", ofNats st.selected)] else
-    let (res, left, best, bestS) := (dfs ctx (init inp)).run (budget, 0, "")
+    let (res, left, best, bestS) := (dfs ctx (init inp) []).run (budget, 0, "")
     let startedOK := match res with
       | some s => (startedOf s).all (fun n => startedObs.contains n || s.running.contains n) &&
                   startedObs.all ((startedOf s).contains ·)
